@@ -21,7 +21,7 @@ FOLD = {"GVN_IOP3": ("plain", "IOP3"), "GVN_IOP3S": ("plain", "IOP3S"), "GVN_UOP
 PIN_MACROS = ["GVN_EXT", "GVN_IOP2", "GVN_IOP2S", "GVN_IOP3", "GVN_IOP3S", "GVN_UOP3", "GVN_UOP3S", "GVN_IOP30",
               "GVN_IOP3S0", "GVN_UOP30", "GVN_UOP3S0", "GVN_ICMP", "GVN_ICMPS", "GVN_UCMP", "GVN_UCMPS"]
 PIN_FUNCS = ["get_gvn_op", "get_gvn_2iops", "get_gvn_2isops", "get_gvn_3iops", "get_gvn_3isops", "get_gvn_3uops",
-             "get_gvn_3usops", "gen_int_log2", "power2_int_op", "transform_mul_div", "canonic_mem_type"]
+             "get_gvn_3usops", "gen_int_log2", "power2_int_op", "transform_mul_div", "canonic_mem_type", "get_ext_params"]
 
 
 def norm(s):
@@ -117,6 +117,12 @@ def extract():
     b = func_body(gen, "add_sub_const_insn_p")
     mm = re.search(r"\*val = (.*?);", b or "", flags=re.S)
     pinned.append(("snippet add_sub_const_insn_p value", norm(mm.group(1)) if mm else "<missing>"))
+    # merging of two extensions in a row (copy_prop and combine_exts): every test on the two widths / signs and
+    # which opcode the remaining extension gets
+    keep = [l.strip() for l in gen.split("\n")
+            if (re.search(r"\bw2\b", l) and re.search(r"\bif \(|get_ext_params", l) and "int " not in l)
+            or re.search(r"insn->code = def_insn->code;", l)]
+    pinned.append(("snippet ext merge guards", norm(" ".join(keep)) if keep else "<missing>"))
     return fold, other_fold, rev, comm, comb, pinned
 
 
